@@ -157,6 +157,7 @@ type Obs struct {
 	NonPr    []int       `json:"nonprint,omitempty"`
 	Text     string      `json:"text,omitempty"` // printable copy of the output for reports
 	Note     string      `json:"note,omitempty"`
+	Order    string      `json:"order,omitempty"`    // keys and scalars of the emitted JSON in document order
 	FSteps   []FStep     `json:"fsteps,omitempty"`   // fhist: every WriteFile / ReadFile step on the one path
 	Steps    []Step      `json:"steps,omitempty"`    // script: what every call on the long-lived Decoder returned
 	Unstable []Unstable  `json:"unstable,omitempty"` // hold: results that changed after they were returned (Fin = how many, N = how many were held)
@@ -177,6 +178,7 @@ type Case struct {
 	WantItems []WantItem    `json:"wantitems,omitempty"` // tseries: the intended entries
 	Multi     bool          `json:"multi,omitempty"`     // stream: Want lists the intended values
 	Loose     bool          `json:"loose,omitempty"`     // gort: the type keeps JSON text as text; JSON equality expected
+	Order     string        `json:"order,omitempty"`     // tojson / unmarshal / series: keys and scalars in source order
 	Pre       string        `json:"pre,omitempty"`       // fhist: what is at the path before the first WriteFile
 	PVs       []interface{} `json:"pvs,omitempty"`       // fhist: the value trees, one per step
 	Wants     []string      `json:"wants,omitempty"`     // fhist: canonical intended value per step
@@ -508,6 +510,9 @@ func setOut(o *Obs, out []byte) {
 	}
 	v := json.Valid(out)
 	o.Valid = &v
+	if v && len(out) < 1<<16 {
+		o.Order = keyOrderJSON(out)
+	}
 	if v {
 		if c, err := canonJSON(out); err == nil {
 			o.Got = c
@@ -611,6 +616,9 @@ func runCase(c *Case) {
 				o.Items = append(o.Items, [2][]int{bytesOf([]byte(t.Type)), runesOf([]byte(*raw))})
 				holdBytes("an entry DecodeSeries returned", []byte(*raw))
 				holdString("a type name DecodeSeries returned", t.Type)
+				if c.Order != "" && len(typed) == 1 {
+					o.Order = keyOrderJSON([]byte(*raw))
+				}
 			}
 		} else if typed != nil {
 			o.Note = "result together with errors"
@@ -637,6 +645,10 @@ func runCase(c *Case) {
 		runFileHist(c, o)
 	case "bigrt":
 		runBigToken(c, o)
+	case "deep":
+		runDeep(c, o)
+	case "reread":
+		runReread(c, o)
 	case "shell":
 		ss, es := strtoken.Parse(string(in))
 		o.Errs = errNames(es)
